@@ -158,6 +158,7 @@ func threshConc(args []string) int {
 	gor := fs.Int("g", 4, "")
 	ops := fs.Int("ops", 3, "")
 	chaos := fs.Bool("chaos", false, "")
+	boundary := fs.Bool("boundary", false, "short histories: exactly the concurrent adds that cross the t+1 boundary")
 	fs.Parse(args)
 	g, err := thresh.NewGroup(*n, *t, *seed)
 	if err != nil {
@@ -178,7 +179,7 @@ func threshConc(args []string) int {
 			if *chaos {
 				ch = thresh.Yield
 			}
-			hs[i] = thresh.Record(g, truth, fmt.Sprintf("h-%d-%d-%d-%d", *n, *t, *seed, i), *seed*100003+int64(i), *gor, *ops, ch)
+			hs[i] = thresh.Record(g, truth, fmt.Sprintf("h-%d-%d-%d-%d", *n, *t, *seed, i), *seed*100003+int64(i), *gor, *ops, ch, *boundary)
 			<-sem
 		}(i)
 	}
